@@ -138,6 +138,8 @@ def canon_key(tree):
 def fp_holder(holder):
     """Labelled identity of the tree a TreeHolder / Particle carries (what its __eq__ compares)."""
     d = holder._tree
+    if not isinstance(d, dict):  # a holder that keeps the built tree instead of its dict form
+        d = d.to_dict()
     return json.dumps(
         [
             [list(e) for e in d["graph"]],
@@ -205,7 +207,7 @@ def cmp_proposal(a, b):
     for (ha, la), (hb, lb) in zip(a["table"], b["table"]):
         d = cmp_summary(ha, hb)
         if d:
-            return ("table entry " + ha["tree"],) + d
+            return (f"{d[0]} of table entry {ha['tree']}", d[1], d[2])
         if not close(la, lb):
             return ("log_q of " + ha["tree"], la, lb)
     for k in ("curr", "empty", "parent", "dp", "op"):
@@ -217,6 +219,33 @@ def cmp_proposal(a, b):
     if "log_old_roots" in a and not close(a["log_old_roots"], b.get("log_old_roots", float("nan"))):
         return ("log_old_roots", a["log_old_roots"], b.get("log_old_roots"))
     return None
+
+
+def raw_of(fn):
+    """The unmemoised original (the function itself when it is not memoised at all)."""
+    return getattr(fn, "__wrapped__", fn)
+
+
+def hits_of(fn):
+    ci = getattr(fn, "cache_info", None)
+    return ci().hits if ci else 0
+
+
+def size_of(fn):
+    ci = getattr(fn, "cache_info", None)
+    return ci().currsize if ci else 0
+
+
+def cap_of(fn):
+    ci = getattr(fn, "cache_info", None)
+    if not ci:
+        return 0
+    m = ci().maxsize
+    return 10 ** 6 if m is None else m
+
+
+def clear_of(fn):
+    getattr(fn, "cache_clear", lambda: None)()
 
 
 class Interner:
@@ -241,15 +270,9 @@ class Shadow:
 
     def __init__(self, ctx, case, impl=None):
         self.ctx, self.case = ctx, case
-        self.impl = {
-            "logS": P_tu.compute_log_S,
-            "conv": P_tu._convolve_two_children,
-            "semi": P_sa._get_cached_semi_proposal_dist,
-            "full": P_fa._get_cached_full_proposal_dist,
-            "newtree": P_sa.get_cached_new_tree,
-        }
+        self.impl = real_fns()
         self.impl.update(impl or {})
-        self.raw = {k: v.__wrapped__ for k, v in self.impl.items()}
+        self.raw = {k: raw_of(v) for k, v in self.impl.items()}
         self.raw_mode = 0
         self.reported = set()
         self.returned = {}  # id -> (array, digest at return time)
@@ -270,8 +293,7 @@ class Shadow:
         self.ctx.oracle_fail(self.case, what, self.SITES[which], signature, detail)
 
     def _called(self, which, before):
-        info = self.impl[which].cache_info()
-        hit = info.hits > before.hits
+        hit = hits_of(self.impl[which]) > before
         self.calls[which] += 1
         self.hits[which] += int(hit)
         return hit
@@ -288,7 +310,7 @@ class Shadow:
         if self.raw_mode:
             return self.raw["logS"](np.array(children, order="C"), *a, **kw)
         snap = [np.array(c, copy=True) for c in children]
-        before = self.impl["logS"].cache_info()
+        before = hits_of(self.impl["logS"])
         ret = self.impl["logS"](children, *a, **kw)
         hit = self._called("logS", before)
         if len(snap) != len(children) or any(not np.array_equal(s, c) for s, c in zip(snap, children)):
@@ -312,7 +334,7 @@ class Shadow:
         if self.raw_mode:
             return self.raw["conv"](a, b, *args, **kw)
         sa, sb = np.array(a, copy=True), np.array(b, copy=True)
-        before = self.impl["conv"].cache_info()
+        before = hits_of(self.impl["conv"])
         ret = self.impl["conv"](a, b, *args, **kw)
         hit = self._called("conv", before)
         if not (np.array_equal(sa, a) and np.array_equal(sb, b)):
@@ -353,7 +375,7 @@ class Shadow:
         if parent is not None and len(parent._built_tree):
             built = parent._built_tree[-1]
         alpha_now = float(kernel.tree_dist.prior.alpha)
-        before = self.impl[which].cache_info()
+        before = hits_of(self.impl[which])
         ret = self.impl[which](*args, **kw)
         hit = self._called(which, before)
         # unmemoised original on the same arguments at this moment (the parent tree is a pop-once deque)
@@ -380,7 +402,7 @@ class Shadow:
     def newtree(self, *args, **kw):
         parent, data_point, children, tree_dist, perm_dist = args[:5]
         alpha_now = float(tree_dist.prior.alpha)
-        before = self.impl["newtree"].cache_info()
+        before = hits_of(self.impl["newtree"])
         ret = self.impl["newtree"](*args, **kw)
         hit = self._called("newtree", before)
         fresh = self.raw["newtree"](*args, **kw)
@@ -406,6 +428,7 @@ class Shadow:
     def cleared(self):
         for k in ("semi", "full", "newtree"):
             self.events[k].append("clear")
+            self.keymap[k] = {}  # the key premise is about entries that can still be hit
 
     # -- install
     def _wrap(self, which):
@@ -415,8 +438,9 @@ class Shadow:
         def w(*a, **kw):
             return fn(*a, **kw)
 
-        w.cache_info = self.impl[which].cache_info
-        w.cache_clear = self.impl[which].cache_clear
+        for attr in ("cache_info", "cache_clear"):
+            if hasattr(self.impl[which], attr):
+                setattr(w, attr, getattr(self.impl[which], attr))
         w.__wrapped__ = self.raw[which]
         return w
 
@@ -470,16 +494,25 @@ class Shadow:
             self.ctx.stat(f"{k}_hits", self.hits[k])
 
 
+def real_fns():
+    return {
+        "logS": P_tu.compute_log_S,
+        "conv": P_tu._convolve_two_children,
+        "semi": P_sa._get_cached_semi_proposal_dist,
+        "full": P_fa._get_cached_full_proposal_dist,
+        "newtree": P_sa.get_cached_new_tree,
+    }
+
+
 def clear_all():
     clear_proposal_dist_caches()
-    P_sa.get_cached_new_tree.cache_clear()
-    P_sa._get_cached_semi_proposal_dist.cache_clear()
-    P_fa._get_cached_full_proposal_dist.cache_clear()
-    P_tu.compute_log_S.cache_clear()
-    P_tu._convolve_two_children.cache_clear()
+    for f in real_fns().values():
+        clear_of(f)
 
 
-REAL_CAPS = {"logS": 4096, "conv": 1024, "semi": 1024, "full": 1024, "newtree": 1024}
+def real_caps():
+    """Capacities as the code declares them (a resized or removed cache is not a violation)."""
+    return {k: cap_of(f) for k, f in real_fns().items()}
 
 
 # ----------------------------------------------------------------------------------------- cases
@@ -548,18 +581,29 @@ def gen_lru_case(rnd):
     return {"kind": "lru", "cap": cap, "ops": ops}
 
 
+def shuffled(rnd, forest):
+    out = [[d, shuffled(rnd, k)] for d, k in forest]
+    rnd.shuffle(out)
+    return out
+
+
 def gen_prop_case(rnd, big):
     n = rnd.randint(3, 6 if big else 5)
     op = rnd.choice([Fraction(0), Fraction(1, 10), Fraction(1, 4)])
     ds = gen_dataset(rnd, n, S=rnd.randint(1, 2), G=rnd.randint(3, 5), bits=3, outlier_prob=op)
     parents = []
     for _ in range(rnd.randint(2, 5)):
-        k = rnd.randint(0, n - 1)
+        k = rnd.choice([0, 1] + list(range(2, n)) * 3)
         if k == 0:
             parents.append({"k": 0, "forest": None, "outs": []})
         else:
             f, o = random_canon_tree(rnd, k, outliers=(op > 0), max_out=k)
             parents.append({"k": k, "forest": f, "outs": o})
+            for _ in range(5):  # the same tree built in another sibling order: other node labels, another key
+                g = shuffled(rnd, f)
+                if g != f and rnd.random() < 0.7:
+                    parents.append({"k": k, "forest": g, "outs": o})
+                    break
     ops = []
     for _ in range(rnd.randint(8, 40 if big else 24)):
         r = rnd.random()
@@ -690,25 +734,24 @@ def check_numeric(ctx, case, use_model):
     mk = lambda i: np.log(np.array([[float(v) for v in row] for row in pool[i]], dtype=float))
     ctx.stat(f"{kind}_cap_{cap}")
     if kind == "logS":
-        target = P_tu.compute_log_S if cap is None else list_of_np_cache(maxsize=cap)(P_tu.compute_log_S.__wrapped__)
+        target = P_tu.compute_log_S if cap is None else list_of_np_cache(maxsize=cap)(raw_of(P_tu.compute_log_S))
     else:
-        target = P_tu._convolve_two_children if cap is None else two_np_arr_cache(maxsize=cap)(P_tu._convolve_two_children.__wrapped__)
+        target = P_tu._convolve_two_children if cap is None else two_np_arr_cache(maxsize=cap)(raw_of(P_tu._convolve_two_children))
     sh = Shadow(ctx, case, impl={kind: target})
     real = []
     with sh:
         fn = sh.logS if kind == "logS" else sh.conv
         for o in case["ops"]:
             if o == "clear":
-                target.cache_clear()
+                clear_of(target)
                 real.append(None)
                 continue
-            before = target.cache_info()
+            before = hits_of(target)
             if kind == "logS":
                 v = fn([mk(i) for i in o])
             else:
                 v = fn(mk(o[0]), mk(o[1]))
-            info = target.cache_info()
-            real.append((info.hits > before.hits, np.array(v, copy=True), info.currsize))
+            real.append((hits_of(target) > before, np.array(v, copy=True), size_of(target)))
         sh.final_checks()
     sh.stats()
     if use_model:
@@ -720,7 +763,7 @@ def check_numeric(ctx, case, use_model):
                 mops.append({"c": [case["pool"][i] for i in o]})
             else:
                 mops.append({"a": case["pool"][o[0]], "b": case["pool"][o[1]]})
-        ans = ctx.ask({"op": "cache_" + kind, "G": G, "S": S, "cap": REAL_CAPS[kind] if cap is None else cap, "ops": mops})
+        ans = ctx.ask({"op": "cache_" + kind, "G": G, "S": S, "cap": cap_of(target), "ops": mops})
         for i, (r, m) in enumerate(zip(real, ans)):
             if r is None:
                 if m["val"] is not None or m["size"] != 0:
@@ -750,10 +793,10 @@ def check_prop(ctx, case, use_model):
     ds, tree_dist, perm, kernel = setup_prop(case)
     which = "semi" if case["proposal"] == "semi-adapted" else "full"
     cap = case["cap"]
-    impl, caps = {}, dict(REAL_CAPS)
+    impl, caps = {}, real_caps()
     if cap is not None:
-        impl[which] = functools.lru_cache(maxsize=cap)((P_sa._get_cached_semi_proposal_dist if which == "semi" else P_fa._get_cached_full_proposal_dist).__wrapped__)
-        impl["newtree"] = functools.lru_cache(maxsize=cap)(P_sa.get_cached_new_tree.__wrapped__)
+        impl[which] = functools.lru_cache(maxsize=cap)(raw_of(real_fns()[which]))
+        impl["newtree"] = functools.lru_cache(maxsize=cap)(raw_of(P_sa.get_cached_new_tree))
         caps[which] = caps["newtree"] = cap
     ctx.stat(f"prop_{which}_cap_{cap}")
 
@@ -814,7 +857,7 @@ def check_run(ctx, case, use_model):
             ctx.stat("run_exception_" + type(e).__name__)
         sh.final_checks()
     sh.stats()
-    sh.check_events(REAL_CAPS, use_model)
+    sh.check_events(real_caps(), use_model)
     ctx.stat("run_distinct_alphas", len(set(alphas)))
     ctx.stat("maxdev_above_1e-14", int(sh.maxdev > 1e-14))
     hits = sum(sh.hits.values())
